@@ -99,6 +99,9 @@ pub enum Step {
     Move { who: usize, row: usize, to: usize, dt: i64 },
     Delete { who: usize, row: usize, dt: i64 },
     RefAdd { who: usize, row: usize, target: usize, dt: i64 },
+    /// a reference added and removed again by the same caller before any peer synchronises: the peers only ever
+    /// receive the record of its removal
+    RefAddDel { who: usize, row: usize, target: usize, dt: i64 },
     RefDel { who: usize, row: usize, target: usize, dt: i64 },
     SysMutate { who: usize, kind: usize, dt: i64 },
     Restart { node: usize },
@@ -337,6 +340,7 @@ pub fn generate(seed: u64, property: &str, thorough: bool) -> Trace {
             }
             8 if nrows > 0 && n_rooms > 1 => steps.push(Step::Move { who, row: rw.usize(nrows), to: rw.usize(n_rooms), dt }),
             9 if nrows > 0 => steps.push(Step::Delete { who, row: rw.usize(nrows), dt }),
+            10 if nrows > 1 && rw.chance(1, 4) => steps.push(Step::RefAddDel { who, row: rw.usize(nrows), target: rw.usize(nrows), dt }),
             10 if nrows > 1 => steps.push(Step::RefAdd { who, row: rw.usize(nrows), target: rw.usize(nrows), dt }),
             11 if nrows > 1 => steps.push(Step::RefDel { who, row: rw.usize(nrows), target: rw.usize(nrows), dt }),
             12 => steps.push(Step::SysMutate { who, kind: rw.usize(4), dt }),
@@ -534,6 +538,17 @@ pub fn directed(property: &str) -> Vec<Trace> {
                     Step::Create { who: 1, row: 1, room: 0, ent: 0, dt: DAY_MS, big: 0 },
                     Step::RefAdd { who: 0, row: 0, target: 1, dt: DAY_MS },
                     Step::RefDel { who: 0, row: 0, target: 1, dt: DAY_MS },
+                ],
+            ));
+            out.push(mk(
+                "C12 a reference added and removed by its author (own-rows right only) before the peer synchronises",
+                2,
+                vec![
+                    Step::NewRoom { who: 0, room: 0, admins: vec![0], groups: vec![own_only(vec![0, 1])], dt: 20 },
+                    Step::Create { who: 1, row: 0, room: 0, ent: 0, dt: DAY_MS, big: 0 },
+                    Step::Create { who: 1, row: 1, room: 0, ent: 0, dt: 1000, big: 0 },
+                    Step::RefAddDel { who: 1, row: 0, target: 1, dt: DAY_MS },
+                    Step::Update { who: 1, row: 1, dt: DAY_MS, big: 0 },
                 ],
             ));
             out.push(mk(
@@ -1113,6 +1128,41 @@ fn exec_step(c: &mut Ctx, st: &Step) -> Result<(), String> {
             if res.is_ok() {
                 // the source row is written again, signed by the caller
                 c.rows[*row].author = who;
+                after_data_op(c, who, true)?;
+            }
+        }
+        Step::RefAddDel { who, row, target, dt } => {
+            let who = *who % n;
+            let Some((id, ent, room, author)) = row_info(c, *row) else { return Ok(()) };
+            let Some((tid, tent, _, _)) = row_info(c, *target) else { return Ok(()) };
+            if ent != 0 || tent != 0 || id == tid {
+                return Ok(());
+            }
+            let Some(rr) = c.rooms.get(room).cloned().flatten() else { return Ok(()) };
+            let exists = {
+                let d = oracle::dump_room(&c.w.nodes[who].oracle_conn()?, &rr.uid)?;
+                let (s, t) = (dv::uid_decode(&id).map_err(|e| e.to_string())?, dv::uid_decode(&tid).map_err(|e| e.to_string())?);
+                d.edges.iter().any(|e| e.src == s.to_vec() && e.dest == t.to_vec())
+            };
+            if exists {
+                return Ok(());
+            }
+            c.now += dt.max(&1);
+            sync_clocks(c);
+            let date = c.w.nodes[who].clock;
+            let own = author == who;
+            let exp = rr.can(who, "Person", date, !own);
+            let p = serde_json::json!({"id": id, "t": tid}).to_string();
+            let res = attempt(c, who, if own { "reference-add-own-source" } else { "reference-add-foreign-source" }, Some(exp), if own { "no-own-rows-right" } else { "no-all-rows-right" }, false, "mutate { Person{ id:$id parents:[{id:$t}] } }", Some(p.clone()))?;
+            if res.is_ok() {
+                c.rows[*row].author = who;
+                c.w.fault("reference_added_and_removed_between_two_synchronisations");
+                c.now += 1000;
+                sync_clocks(c);
+                let date = c.w.nodes[who].clock;
+                let exp = rr.can(who, "Person", date, false);
+                let res = attempt(c, who, "reference-delete-own-source", Some(exp), "no-own-rows-right", true, "delete { Person{ $id parents[$t] } }", Some(p))?;
+                let _ = res;
                 after_data_op(c, who, true)?;
             }
         }
